@@ -291,3 +291,25 @@ def run(ctx, rep, tier):
     from .shared import delegate
     structs.check_cull_policy(ctx, rep, "C17.j")      # joins keep the explicit End exclusion of a following wildcard
     delegate(ctx, rep, tier, "C05", ("C05.a", "C05.b", "C05.g", "C05.h", "C05.i"), "C17.k", "optimiser rewrites keep the error mark end() relies on and never reroute End past the transition that handles it")
+
+
+def _end_is_not_a_character(ctx, rep, tier):
+    import ast
+    model = ctx.model
+    rep.rule("C17.l", "each-character actions (appends, foreach bodies) never sit on a transition that only consumes end-of-input")
+    q = "EndMatch.convert"
+    fn = model.func(q)
+    att = [c for c in calls_in(fn) if isinstance(c.func, ast.Attribute) and c.func.attr == "attach" and "DFTransition.End" in ast.unparse(c.func.value)]
+    rep.check(len(att) == 1 and "char_actions" not in ast.unparse(att[0]) and "self.start_actions" in ast.unparse(att[0]) and "self.finish_actions" in ast.unparse(att[0]), "C17.l", q,
+              "the End transition of an `end` pattern carries start and finish actions only", "`s += (\"ab\" end);` appends a phantom byte (0xff, the placeholder end() defines for the current byte) when end() is called")
+    q = "ForeachNode.convert"
+    ok = model.has(q, "if set(transition.on_values) == {DFTransition.End}:\n    continue\ntransition.attach(*self.each_actions, prepend=True)")
+    rep.check(ok, "C17.l", q, "foreach skips transitions that consume only end-of-input", "`foreach { \"ab\"; end; } do { n = [n + 1]; }` counts end-of-input as a character")
+
+
+_run_l = run
+
+
+def run(ctx, rep, tier):
+    _run_l(ctx, rep, tier)
+    _end_is_not_a_character(ctx, rep, tier)
